@@ -153,7 +153,9 @@ def run(rep: core.Report):
                     outcomes.setdefault((sm, dr), set()).add(got)
     if not configs:
         raise AnalysisError("R08a: no call of dym_get_charge_sum on any path of get_dynmat_want")
-    ctx = celem.State(ex, "get_dynmat_want", {"nac_factor": sp.Symbol("nac_factor"), "n": N, "num_patom": n}, {}, 0)
+    # the number of lattice points per primitive cell, by role: the local assigned num_satom / num_patom
+    n_name = next((cast.ref_name(cast.kids(x)[0]) for x in cast.walk(want_fn) if x.get("kind") == "BinaryOperator" and x.get("opcode") == "=" and cast.text(cast.strip(cast.kids(x)[1])).replace("(", "").replace(")", "") == "num_satom / num_patom"), "n")
+    ctx = celem.State(ex, "get_dynmat_want", {"nac_factor": sp.Symbol("nac_factor"), n_name: N, "num_patom": n}, {}, 0)
     eps = sp.Function("dielectric")
     for qname, (c, args, env_) in sorted(configs.items(), key=lambda kv: str(kv[0])):
         qname = str(qname)
